@@ -28,6 +28,9 @@ PINNED = {
 WRAPPER = 'def {name}(self, message):\n    self.log_msg(logging.{level}, message)'
 
 
+STR_METHODS = ('__str__', '__repr__', '__format__')
+
+
 def names_of(node):
     """Dotted names mentioned by an expression: `a.b.c` for attribute chains, `f()` / `a.b.f()` for calls,
     `.attr` / `.f()` when the receiver is not a plain chain (its own names are listed too)."""
@@ -139,10 +142,18 @@ class FileWalker:
         F = self.facts
         if isinstance(st, (ast.FunctionDef, ast.AsyncFunctionDef)):
             q = st.name if qual == '<module>' else f'{qual}.{st.name}'
-            if self.fname == 'ikesa.py' and (q in PINNED or (q.startswith('IkeSa.log_') and st.name in self.wrappers)):
+            if self.fname == 'ikesa.py' and (q == 'IkeSa.log_msg' or (q.startswith('IkeSa.log_')
+                                                                      and st.name in self.wrappers)):
                 return      # the pinned wrappers: not sites themselves
             for d in st.decorator_list:
                 self.expr(d, qual, exc_names)
+            if st.name in STR_METHODS:
+                # str(obj) / f'{obj}' at any level runs this: what it returns is as visible as an INFO record
+                names = []
+                for n in ast.walk(st):
+                    if isinstance(n, ast.Return) and n.value is not None:
+                        names += [x for x in names_of(n.value) if x not in names]
+                F.logs.append((self.fname, q, st.lineno, 20, names, False))
             self.scope(st.body, q, [])
             return
         if isinstance(st, ast.ClassDef):
@@ -154,6 +165,9 @@ class FileWalker:
             lhs = [x for t in st.targets for x in target_names(t)]
             F.assigns.append((self.fname, qual, line, lhs, names_of(st.value)))
             self.check_logging_store(st, qual)
+            for t in lhs:
+                if t.split('.')[-1] in STR_METHODS and isinstance(st.value, ast.Lambda):
+                    F.logs.append((self.fname, t, line, 20, names_of(st.value.body), False))
         elif isinstance(st, ast.AugAssign):
             lhs = target_names(st.target)
             F.assigns.append((self.fname, qual, line, lhs, lhs + names_of(st.value)))
@@ -412,7 +426,8 @@ Import ListNotations.
 Open Scope string_scope.
 Open Scope Z_scope.
 
-(* every logging call: self.log_<level>(...), logging.<level>(...), logging.log(<LEVEL>, ...), print(...) *)
+(* every logging call: self.log_<level>(...), logging.<level>(...), logging.log(<LEVEL>, ...), print(...);
+   and every __str__ / __repr__ method (what str(obj) shows), listed at level INFO *)
 Definition log_sites : list log_site := [
   {logs}
 ].
